@@ -32,7 +32,7 @@ from .common import facts_of, heap_writes, key_of_text, returns, maybe_true
 
 META = {
     "level": "other",
-    "technique": "static analysis: dependence closure through the slot table, must-fact dominance, sibling agreement of interval constructors, order tables on interval tests",
+    "technique": "static analysis: dependence closure through the slot table, must-fact dominance, sibling agreement of interval constructors, order tables on interval tests, complete finite decision tables (weekday x hour; orderings of minute/start/end) read off the syntax tree",
     "explanation": "Rule instances over ResourceScenario.available/onShift/initScoreboard, WorkingHours.onShift, "
                    "Project._isDefaultWorkingTime and the parser's leave constructors: dependence of availability on every "
                    "calendar input, dominance of the on-shift fact over every positive answer, agreement of the five "
